@@ -97,6 +97,9 @@ type windowCase struct {
 	B boundSpec `json:"b"`
 	// Quiet: call Quiescence.QuietSearch at the root instead of AlphaBeta.Search.
 	Quiet bool `json:"quiet"`
+	// Unset: "a" or "b": that bound is left unset in the search context (a half-open window:
+	// an unset bound is no bound).
+	Unset string `json:"unset,omitempty"`
 }
 
 // judgeWindow is the property's relation between the true value v, the window and r.
@@ -168,6 +171,12 @@ var checkC13 = def("C13/window", func(c windowCase) error {
 	}
 	tt, withTable := tableFor(c.searchCase, cfg, b, g, ref)
 	sctx := &search.Context{Alpha: refsearch.ToScore(a), Beta: refsearch.ToScore(bb), TT: tt}
+	switch c.Unset {
+	case "a":
+		a, sctx.Alpha = refsearch.Value{Class: refsearch.Lost}, eval.InvalidScore
+	case "b":
+		bb, sctx.Beta = refsearch.Value{Class: refsearch.Won}, eval.InvalidScore
+	}
 	sb := b.Fork()
 	var score eval.Score
 	what := fmt.Sprintf("%s depth %d", c.Config, c.Depth)
@@ -225,11 +234,14 @@ var checkC13 = def("C13/window", func(c windowCase) error {
 	if withTable {
 		labels = append(labels, "with-fresh-table", "full-window-search-afterwards-on-the-same-table")
 	}
+	if c.Unset != "" {
+		labels = append(labels, "half-open-window")
+	}
 	if c.Quiet {
 		labels = append(labels, "quiescence-direct")
 		// full-window facts about quiescence
 	}
-	stats.Case("C13/window", stats.FP(c.FEN, fmt.Sprint(c.Moves), c.Config, c.Param, c.Depth, c.A, c.B, c.Quiet, c.TableBytes), (mateBound && finiteMate) || tight, labels...)
+	stats.Case("C13/window", stats.FP(c.FEN, fmt.Sprint(c.Moves), c.Config, c.Param, c.Depth, c.A, c.B, c.Quiet, c.TableBytes, c.Unset), (mateBound && finiteMate) || tight || c.Unset != "", labels...)
 	return nil
 })
 
@@ -261,6 +273,9 @@ func genBound(t *rapid.T, label string) boundSpec {
 func TestC13_window(t *testing.T) {
 	runRapid(t, "C13/window", 30000, func(t *rapid.T) windowCase {
 		c := windowCase{searchCase: genSearchCase(t, abConfigs), A: genBound(t, "a"), B: genBound(t, "b")}
+		if rapid.IntRange(0, 5).Draw(t, "halfopen") == 0 {
+			c.Unset = rapid.SampledFrom([]string{"a", "b"}).Draw(t, "unset")
+		}
 		if c.Depth > 4 {
 			c.Depth = 4 // smaller trees than C03: several windows per root matter more than depth
 		}
